@@ -224,6 +224,7 @@ func c13filter(env sched.Env) *sched.Report {
 					}
 					cs := c13fcase{T, ci, v, times}
 					rep.Execs++
+					sched.Progress(nil)
 					sig, detail := c13filterCase(cs)
 					if sig != "" {
 						rep.Outcomes["violation: "+sig]++
@@ -245,6 +246,7 @@ func c13filter(env sched.Env) *sched.Report {
 		chain.AddFilter(newCompressFilter(cfg))
 		for _, b := range []string{"append", "eval", "setbit", "getbit", "setrange", "getrange", "APPEND", "GetRange"} {
 			rep.Execs++
+			sched.Progress(nil)
 			req := newSimpleRequest(newStringArray(b, "k", "1", "2"))
 			st := chain.Do(req)
 			done := false
@@ -472,6 +474,7 @@ func c13histories(env sched.Env) *sched.Report {
 				sched.Progress(cs)
 				sig, detail := c13history(cs)
 				rep.Execs++
+				sched.Progress(nil)
 				rep.Transitions += int64(len(ops))
 				if sig != "" {
 					rep.Outcomes["violation: "+sig]++
